@@ -4048,11 +4048,30 @@ class LoopNode(ActionSinkNode, ActionSourceNode):
                     should_try_to_append = True
                     break
 
-        # Verify that the accepting states are all distinct TODO: make this properly do ambiguity resolution
+        # Verify that the accepting states are all distinct, and that no byte which continues the last statement of the body could also
+        # start the next iteration (the same check append_after does when it joins two statements)
+        loop_start = sub_dfa.starting_state
+        starts_iteration, never_starts_iteration = set(), set()
+        if isinstance(loop_start, DFProxyState):
+            starts_iteration, never_starts_iteration = loop_start.equivalent_on_values()
         for accept_state in sub_dfa.accepting_states:
             for transition in accept_state.all_transitions():
                 if transition.target in sub_dfa.accepting_states:
                     raise IllegalDFAStateConflictsError("Ambigious loop: should loop or continue matching", transition)
+                if transition.error_handling:
+                    continue
+                continues_on = set(transition.on_values)
+                if DFTransition.Else in continues_on:
+                    continues_on.update(accept_state.compute_foreign_else_definition(loop_start))
+                for symbol in continues_on:
+                    if isinstance(loop_start, DFProxyState):
+                        restart = None
+                        ambiguous = symbol in starts_iteration or (DFTransition.Else in starts_iteration and symbol not in never_starts_iteration)
+                    else:
+                        restart = loop_start[symbol]
+                        ambiguous = restart is not None and not restart.error_handling and restart.target != transition.target
+                    if ambiguous:
+                        raise IllegalDFAStateConflictsError("Ambigious loop: should loop or continue matching", transition, *([restart] if restart is not None else []))
 
         # If there are error-handling transitions on the accept node, point them to the starting node as fallthrough (so that anything that _isn't_ getting matched by 
         # the last node gets forwarded to the start, looping). If there are no transitions on the final node, point everything to the start.
